@@ -13,6 +13,7 @@ import (
 	"math/rand"
 	"net"
 	"os"
+	"path/filepath"
 	"regexp"
 	"strconv"
 	"strings"
@@ -767,6 +768,261 @@ func c14cfgCorpus() []*c14WC {
 }
 
 // ---------------------------------------------------------------------------------
+// (A2) the FRAMING of the handshake: which reader the relay uses for the client's ACT and the
+// server's CFG, and which terminator it puts on every line it sends itself, as a function of
+// the Windows-server fact, of the ACT (newline, tunnel) and of what the relay remembers from
+// earlier transfers (clientIsWindows).  fn "handshake2" vs RelayNeg.rn_handshake2.
+
+type c14fhIn struct {
+	mode    int
+	width   int32
+	win     bool
+	cliWin0 bool
+	actWin  bool   // the ACT line ends with "!\n"
+	act     *c14WA // nil: a line whose payload is not an ACT
+	cfgWin  bool
+	cfg     *c14WC // nil: cfgBad or none
+	cfgBad  bool
+	desc    string
+}
+
+func c14nl(win bool) string {
+	if win {
+		return "!\n"
+	}
+	return "\n"
+}
+
+func c14terms(lines [][]byte) string {
+	var b strings.Builder
+	for _, l := range lines {
+		switch {
+		case bytes.HasSuffix(l, []byte("!\n")):
+			b.WriteByte('W')
+		case bytes.HasSuffix(l, []byte("\n")):
+			b.WriteByte('U')
+		default:
+			b.WriteByte('?')
+		}
+	}
+	return b.String()
+}
+
+// is the CFG line supplied?  Only when the handshake will get as far as reading it: an
+// unread parked line is flushed to the client afterwards (C13), which is not this group's topic
+func (in *c14fhIn) cfgSupplied() bool {
+	return in.act != nil && c14val(in.act.confirm, false) && in.actWin == in.win && (in.cfg != nil || in.cfgBad)
+}
+
+func (in *c14fhIn) args() []string {
+	b := func(x bool) string {
+		if x {
+			return "1"
+		}
+		return "0"
+	}
+	a, g := "bad", "none"
+	if in.act != nil {
+		a = in.act.canon()
+	}
+	if in.cfgSupplied() {
+		if in.cfg != nil {
+			g = in.cfg.canon()
+		} else {
+			g = "bad"
+		}
+	}
+	return []string{strconv.Itoa(in.mode), strconv.Itoa(int(in.width)), b(in.win), b(in.cliWin0), b(in.actWin), a, b(in.cfgWin), g}
+}
+
+// the client as its ACT describes it, if the ACT is one a trzsz client can send: it frames for
+// Windows ("newline":"!\n") only without a tunnel, and it does so whenever the server is Windows
+func (in *c14fhIn) honestClient() (windows bool, ok bool) {
+	if in.act == nil || in.actWin != in.win {
+		return false, false
+	}
+	nl := "\n"
+	if in.act.newline != nil {
+		nl = *in.act.newline
+	}
+	tunnel := c14val(in.act.tunnel, false)
+	windows = nl == "!\n"
+	if nl != "\n" && nl != "!\n" || windows && tunnel || in.win && !tunnel && !windows {
+		return false, false
+	}
+	return windows, true
+}
+
+func (in *c14fhIn) clientKind(windows bool) string {
+	k := "unix-client"
+	if windows {
+		k = "windows-client"
+	}
+	if in.win {
+		k += "/windows-server"
+	}
+	if in.act != nil && c14val(in.act.tunnel, false) {
+		k += "/tunnel"
+	}
+	if in.mode == 1 {
+		k += "/relay-in-tmux"
+	}
+	return k
+}
+
+// DIRECT ORACLES on the framing, independent of the model
+func (c *ctx) c14oracleFraming(in *c14fhIn, kind string, toServer, toClient [][]byte, how string) {
+	windows, ok := in.honestClient()
+	if !ok {
+		return
+	}
+	ck := in.clientKind(windows)
+	detail := how + " " + in.desc + " args=" + strings.Join(in.args(), " ") + " to-client=" + hxs(toClient)
+	want := c14nl(windows)
+	for _, l := range toClient {
+		if !bytes.HasSuffix(l, []byte(want)) || want == "\n" && bytes.HasSuffix(l, []byte("!\n")) {
+			t, _, _ := c14decodeLine(l)
+			c.violate("relay-client-terminator:"+t+":"+ck, "a line the relay itself sent to the client does not end with the terminator that client reads by "+
+				"(it announced newline "+strconv.Quote(want)+")", detail)
+		}
+	}
+	// the server reads the ACT before it knows anything about the client: with the Windows reader
+	// exactly when it runs on Windows
+	for _, l := range toServer {
+		if t, _, _ := c14decodeLine(l); t == "ACT" && bytes.HasSuffix(l, []byte("!\n")) != in.win {
+			c.violate("relay-server-terminator:ACT:"+ck, "the ACT the relay sent to the server does not end with the terminator that server reads by", detail+" to-server="+hxs(toServer))
+		}
+	}
+	// the server is honest too: it frames its CFG with the newline of the ACT it received
+	if c14val(in.act.confirm, false) && in.cfg != nil && in.cfgSupplied() && in.cfgWin == windows &&
+		(in.cfg.escape == nil || *in.cfg.escape != "o") {
+		if kind != "done" {
+			c.violate("relay-handshake-failed:"+ck, "client and server would have completed this handshake directly; through the relay it ended as "+kind, detail)
+		}
+		c.count("framing:honest:" + ck)
+	}
+}
+
+func (c *ctx) c14runFramed(in *c14fhIn) (string, string, [][]byte, [][]byte) {
+	var fc, fs [][]byte
+	if in.act != nil {
+		fc = [][]byte{c14line("ACT", in.act.json(nil, false, nil), c14nl(in.actWin))}
+	} else {
+		fc = [][]byte{c14line("CFG", []byte(`{}`), c14nl(in.actWin))}
+	}
+	if in.cfgSupplied() {
+		if in.cfg != nil {
+			fs = [][]byte{c14line("CFG", in.cfg.json(nil, false, nil), c14nl(in.cfgWin))}
+		} else {
+			fs = [][]byte{c14line("SUCC", []byte(`1`), c14nl(in.cfgWin))}
+		}
+	}
+	ts, tc, st, cw, hung := trzsz.VerifRelayHandshake2(in.mode, in.width, in.win, in.cliWin0, fc, fs, 700*time.Millisecond)
+	kind, _, _, canon := c14classify(ts, tc, st)
+	if hung {
+		kind = "hung" + strconv.Itoa(len(ts))
+		canon = kind + canon[strings.Index(canon, ":"):]
+	}
+	b := "0"
+	if cw {
+		b = "1"
+	}
+	return kind, canon + ":S=" + c14terms(ts) + ":C=" + c14terms(tc) + ":w" + b, ts, tc
+}
+
+func (c *ctx) c14framedHandshakes() {
+	t, f := true, false
+	var ins []*c14fhIn
+	// every client a trzsz client can be (on Windows or not, Windows server or not, tunnel or not) x
+	// every relay (outside tmux, tmux normal, tmux control) x what the relay remembers x the three
+	// outcomes (confirmed / refused / server's line not a CFG), with honest framing of both ends
+	for _, win := range []bool{false, true} {
+		for _, envWin := range []bool{false, true} {
+			for _, tun := range []bool{false, true} {
+				cliWindows := !tun && (envWin || win)
+				for mode := 0; mode < 3; mode++ {
+					for _, cw0 := range []bool{false, true} {
+						for out := 0; out < 3; out++ {
+							act := &c14WA{lang: c14s("go"), version: c14s("1.1.8"), confirm: c14b(out != 1), newline: c14s(c14nl(cliWindows)),
+								protocol: c14i(4), binary: c14b(!cliWindows), dir: &t, tunnel: c14b(tun), fork: c14b(tun)}
+							in := &c14fhIn{mode: mode, width: []int32{-1, 132}[mode&1], win: win, cliWin0: cw0, actWin: win, act: act, cfgWin: cliWindows,
+								desc: "go-client"}
+							if out == 2 {
+								in.cfgBad = true
+							} else {
+								in.cfg = &c14WC{bufsize: c14i(10 << 20), timeout: c14i(20), protocol: c14i(4), overwrite: &t, binary: c14b(tun)}
+							}
+							ins = append(ins, in)
+						}
+						// the ACT itself is not decodable: the relay frames its FAIL by what it remembers
+						ins = append(ins, &c14fhIn{mode: mode, width: -1, win: win, cliWin0: cw0, actWin: win, desc: "undecodable-act"})
+					}
+				}
+			}
+		}
+	}
+	// framings that do NOT match (a reader that garbles the line, or never finds its terminator)
+	for _, win := range []bool{false, true} {
+		for _, cliNL := range []bool{false, true} {
+			for _, actWin := range []bool{false, true} {
+				for _, cfgWin := range []bool{false, true} {
+					for _, tun := range []bool{false, true} {
+						act := &c14WA{lang: c14s("go"), confirm: &t, newline: c14s(c14nl(cliNL)), protocol: c14i(4), tunnel: c14b(tun)}
+						ins = append(ins, &c14fhIn{mode: 0, width: -1, win: win, cliWin0: c.rng.Intn(2) == 0, actWin: actWin, act: act, cfgWin: cfgWin,
+							cfg: &c14WC{bufsize: c14i(1024), timeout: c14i(5)}, desc: "any-framing"})
+					}
+				}
+			}
+		}
+	}
+	// random ACT x CFG objects with random framings
+	for i, n := 0, c.pick(400, 6000); i < n; i++ {
+		in := &c14fhIn{mode: c.rng.Intn(3), width: []int32{-1, 0, 80}[c.rng.Intn(3)], win: c.rng.Intn(3) == 0, cliWin0: c.rng.Intn(2) == 0, desc: "random"}
+		in.act = c14randWA(c.rng)
+		if c.rng.Intn(4) > 0 {
+			in.act.confirm = &t
+		}
+		if c.rng.Intn(3) > 0 {
+			in.act.newline = c14s(c14nl(c.rng.Intn(2) == 0))
+		}
+		if c.rng.Intn(20) == 0 {
+			in.act = nil
+		}
+		in.actWin = in.win
+		if c.rng.Intn(12) == 0 {
+			in.actWin = !in.win
+		}
+		in.cfg = c14randWC(c.rng, true)
+		if c.rng.Intn(15) == 0 {
+			in.cfg, in.cfgBad = nil, true
+		}
+		in.cfgWin = in.act != nil && in.act.newline != nil && *in.act.newline == "!\n"
+		if c.rng.Intn(12) == 0 {
+			in.cfgWin = !in.cfgWin
+		}
+		ins = append(ins, in)
+	}
+	_ = f
+	type res struct {
+		kind, canon string
+		ts, tc      [][]byte
+	}
+	out := make([]res, len(ins))
+	parallelDo(len(ins), 16, func(i int) {
+		k, cn, ts, tc := c.c14runFramed(ins[i])
+		out[i] = res{k, cn, ts, tc}
+	})
+	for i, in := range ins {
+		c.c14oracleFraming(in, out[i].kind, out[i].ts, out[i].tc, "export-handshake2")
+		c.count("hs2:" + out[i].kind)
+		if in.act == nil && in.win == false && in.cliWin0 == false {
+			c.count("hs2:undecodable-act-fresh-relay-unix-terminator") // C14_client_terminator_any_act_refuted
+		}
+		c.emit(true, "handshake2", out[i].canon, in.args()...)
+	}
+}
+
+// ---------------------------------------------------------------------------------
 // (B) the real relay over pipes
 
 type c14Rig struct {
@@ -866,14 +1122,14 @@ const c14wait = 3 * time.Second
 
 // handshake through a rig in standby: trigger, ACT, CFG.  Returns the classification in the
 // same canonical form as the export path.
-func (c *ctx) c14pipeHandshake(in *c14hsIn, rng *rand.Rand) (string, *c14WA, *c14WC, string) {
+func (c *ctx) c14pipeHandshake(in *c14hsIn, rng *rand.Rand) (string, *c14WA, *c14WC, string, [][]byte) {
 	g := c14newRig()
 	defer g.close()
 	trig, retag := c14trigger('R')
 	g.srvW.Write(trig)
 	got := c14recv(g.atCli, c14wait)
 	if got == nil || !bytes.Contains(got, []byte("#R")) || !bytes.Contains(got, []byte(retag)) {
-		return "?trigger-not-rewritten:" + hx(got), nil, nil, "?trigger"
+		return "?trigger-not-rewritten:" + hx(got), nil, nil, "?trigger", nil
 	}
 	fc, fs := in.lines(rng)
 	var ts, tc [][]byte
@@ -918,7 +1174,8 @@ func (c *ctx) c14pipeHandshake(in *c14hsIn, rng *rand.Rand) (string, *c14WA, *c1
 		}
 		tc = append(tc, b)
 	}
-	return c14classify(ts, tc, st)
+	kind, fa, fc2, cn := c14classify(ts, tc, st)
+	return kind, fa, fc2, cn, tc
 }
 
 func (c *ctx) c14pipeHandshakes() {
@@ -939,18 +1196,41 @@ func (c *ctx) c14pipeHandshakes() {
 		ins[i] = in
 		rngs[i] = rand.New(rand.NewSource(c.rng.Int63()))
 	}
+	// the clients a trzsz client can be without a tunnel (on Windows / not), confirmed, refused, and with a
+	// server line that is no CFG, through the relay as NewTrzszRelay builds it
+	k := 0
+	for _, cliWindows := range []bool{true, false} {
+		for outc := 0; outc < 3 && k < n; outc++ {
+			tr := true
+			in := &c14hsIn{mode: 0, width: -1, act: &c14WA{lang: c14s("go"), version: c14s("1.1.8"), confirm: c14b(outc != 1),
+				newline: c14s(c14nl(cliWindows)), protocol: c14i(4), binary: c14b(!cliWindows), dir: &tr, tunnel: c14b(false), fork: c14b(false)}}
+			if outc == 2 {
+				in.badCfg = c14line("SUCC", []byte(`1`), c14nl(cliWindows))
+			} else {
+				in.cfg = &c14WC{bufsize: c14i(2 << 20), timeout: c14i(33), protocol: c14i(4), overwrite: &tr, compress: c14i(2)}
+			}
+			ins[k] = in
+			k++
+		}
+	}
 	type res struct {
 		kind, canon string
 		act         *c14WA
 		cfg         *c14WC
+		tc          [][]byte
 	}
 	out := make([]res, n)
 	parallelDo(n, 16, func(i int) {
-		k, a, g, cn := c.c14pipeHandshake(ins[i], rngs[i])
-		out[i] = res{k, cn, a, g}
+		k, a, g, cn, tc := c.c14pipeHandshake(ins[i], rngs[i])
+		out[i] = res{k, cn, a, g, tc}
 	})
 	for i, in := range ins {
 		c.c14checkHs(in, out[i].kind, out[i].act, out[i].cfg, "pipe-handshake")
+		if in.act != nil {
+			cliWin := in.act.newline != nil && *in.act.newline == "!\n"
+			c.c14oracleFraming(&c14fhIn{mode: 0, width: -1, act: in.act, cfg: in.cfg, cfgBad: in.badCfg != nil,
+				cfgWin: cliWin && !c14val(in.act.tunnel, false), desc: "NewTrzszRelay over pipes"}, out[i].kind, nil, out[i].tc, "pipe-handshake")
+		}
 		c.count("pipe-hs:" + strings.SplitN(out[i].kind, ":", 2)[0])
 		c.emit(true, "handshake", out[i].canon, in.args()...)
 	}
@@ -966,6 +1246,7 @@ type c14ev struct {
 	retag  string // T
 	conf   bool   // E: confirm the model is told
 	tun    bool   // A: the ACT's tunnel field; T: the trigger announces a real tunnel port (set up by the harness)
+	noconn bool   // T with tun: the server listens and the relay offers its own port, but the client does not connect (in-band fallback)
 }
 
 func (e c14ev) arg() string {
@@ -1350,7 +1631,12 @@ func c14runSeq(evs []c14ev) c14seqResult {
 			g.srvW.Write(data)
 			var seen []byte
 			f, seen = next(g.atCli, e, st == 1, false)
-			if e.tun && f == "r" && !tun.connect(seen, svrPort) {
+			if e.tun && e.noconn {
+				if f == "r" && c14portRe.FindSubmatch(seen) == nil {
+					res.note = "relay-did-not-offer-a-port"
+					return res
+				}
+			} else if e.tun && f == "r" && !tun.connect(seen, svrPort) {
 				res.note = "tunnel-not-established"
 				return res
 			}
@@ -1510,6 +1796,12 @@ func (c *ctx) c14sequences() {
 				t = tunnelTransfer(k)
 			} else {
 				t = c14genTransfer(c.rng, k, false)
+				if len(j.trs) > 0 && c.rng.Intn(2) == 0 {
+					// a tunnel is offered again, but the client cannot connect this time: it falls back in-band
+					t.evs[0].data = t.evs[0].data[bytes.Index(t.evs[0].data, []byte("\x1b7\x07")):]
+					t.evs[0].tun, t.evs[0].noconn = true, true
+					c.count("seq:inband-fallback-after-offer")
+				}
 			}
 			j.trs = append(j.trs, t)
 			j.evs = append(j.evs, t.evs...)
@@ -1782,6 +2074,93 @@ func (c *ctx) c14server() {
 	}
 }
 
+// ---------------------------------------------------------------------------------
+// (E) end to end: the REAL client (trzsz.NewTrzszFilter) as a client on Windows
+// (trzsz.SetAffectedByWindows: it announces "newline":"!\n", offers no binary mode and reads
+// with the Windows line reader) and as a Unix client, through 1-2 real relays, against the real
+// trz / tsz child processes.  DIRECT ORACLE: the transfer completes and the destination equals
+// the source, as it does without a relay.
+
+type c14e2eCase struct {
+	windows, upload bool
+	relays          int
+	diffs           []string
+}
+
+func (c *ctx) c14e2eWindows() {
+	work, err := os.MkdirTemp("", "c14_e2e_")
+	if err != nil {
+		c.count("e2e:skipped:no-tempdir")
+		return
+	}
+	defer os.RemoveAll(work)
+	for _, windows := range []bool{true, false} {
+		var cases []*c14e2eCase
+		for _, relays := range []int{0, 1, 2} {
+			for _, upload := range []bool{true, false} {
+				if !windows && relays == 0 {
+					continue // C01's ground
+				}
+				cases = append(cases, &c14e2eCase{windows: windows, upload: upload, relays: relays})
+			}
+		}
+		seeds := make([]int64, len(cases))
+		for i := range seeds {
+			seeds[i] = c.rng.Int63()
+		}
+		trzsz.SetAffectedByWindows(windows)
+		parallelDo(len(cases), 6, func(i int) {
+			ec := cases[i]
+			rng := rand.New(rand.NewSource(seeds[i]))
+			root := filepath.Join(work, fmt.Sprintf("w%v_%d", windows, i))
+			src, dest := filepath.Join(root, "src"), filepath.Join(root, "dest")
+			os.MkdirAll(src, 0755)
+			os.MkdirAll(dest, 0755)
+			var tops []string
+			for j, n := range []int{0, 1 + rng.Intn(2000), 30000 + rng.Intn(60000)} {
+				p := filepath.Join(src, fmt.Sprintf("f%d.bin", j))
+				os.WriteFile(p, fillBytes(rng, n, j), 0644)
+				tops = append(tops, p)
+			}
+			r := runTransfer(e2eCfg{upload: ec.upload, relays: ec.relays, overwrite: rng.Intn(2) == 0, proto: -1, timeout: 10,
+				deadline: 30 * time.Second}, tops, dest)
+			shown := r.serverOut
+			if !ec.upload {
+				shown = r.termOut + r.serverOut
+			}
+			names, ok := parseSaved(shown)
+			if !(ok && !r.hung && r.clientDone && r.serverExited && (!ec.upload || r.uploadErr == nil)) {
+				ec.diffs = append(ec.diffs, fmt.Sprintf("no-success: hung=%v clientDone=%v serverExited=%v uploadErr=%v saved=%v tail=%q",
+					r.hung, r.clientDone, r.serverExited, r.uploadErr, ok, tailStr(r.termOut+"|"+r.serverOut, 300)))
+				return
+			}
+			if len(names) != len(tops) {
+				ec.diffs = append(ec.diffs, fmt.Sprintf("names-count: shown %v for %d sources", names, len(tops)))
+				return
+			}
+			for j, top := range tops {
+				ec.diffs = append(ec.diffs, sameTree(top, filepath.Join(dest, names[j]))...)
+			}
+		})
+		trzsz.SetAffectedByWindows(false)
+		for _, ec := range cases {
+			ck := map[bool]string{true: "windows-client", false: "unix-client"}[ec.windows]
+			dir := map[bool]string{true: "upload", false: "download"}[ec.upload]
+			desc := fmt.Sprintf("e2e %s relays=%d %s", ck, ec.relays, dir)
+			c.note(true, desc)
+			c.count(fmt.Sprintf("e2e:%s:relays=%d", ck, ec.relays))
+			if len(ec.diffs) > 0 {
+				key := fmt.Sprintf("relay-e2e-failed:%s:relays=%d:%s", ck, ec.relays, dir)
+				if ec.relays == 0 {
+					key = "e2e-failed-without-relay:" + ck + ":" + dir
+				}
+				c.violate(key, "a transfer between the real client ("+ck+") and the real "+map[bool]string{true: "trz", false: "tsz"}[ec.upload]+
+					" through "+strconv.Itoa(ec.relays)+" relay(s) did not complete with the destination equal to the source", desc+": "+strings.Join(ec.diffs, "; "))
+			}
+		}
+	}
+}
+
 func genRelayNeg(c *ctx) {
 	os.Unsetenv("TMUX") // checkTmux: noTmuxMode for NewTrzszRelay
 	sc := trzsz.VerifRelayStatusConsts()
@@ -1795,8 +2174,10 @@ func genRelayNeg(c *ctx) {
 		c.emit(true, "client_decode_escape", res, map[bool]string{true: "o", false: "tee" + "ee" + "7e31"}[js == "{}"])
 	}
 	c.c14exportHandshakes()
+	c.c14framedHandshakes()
 	c.c14pipeHandshakes()
 	c.c14sequences()
 	c.c14chains()
 	c.c14server()
+	c.c14e2eWindows()
 }
